@@ -561,6 +561,13 @@ func (m *Manager) rotateWAL() error {
 		return fmt.Errorf("failed to create new WAL: %w", err)
 	}
 
+	// Hand the sequence counter over to the new WAL so that sequence numbers
+	// keep increasing across rotations (the old WAL is marked rotating, so it
+	// cannot hand out further numbers)
+	if currentWAL != nil {
+		newWAL.UpdateNextSequence(currentWAL.GetNextSequence())
+	}
+
 	// Store the old WAL for proper closure
 	oldWAL := m.wal
 
